@@ -536,6 +536,8 @@ def units(tier, seed):
     out.append(("default-entropy", {"curve": "t13-twin", "draws": 1500 if q else 20000}))
     out.append(("default-entropy", {"curve": "t23a-twin", "draws": 2500 if q else 30000}))
     out.append(("falsy-entropy", {"examples": 300 if q else 5000}))
+    out.append(("faults", {"jobset": 'rand', "arg": None, "examples": 40 if tier == "quick" else 1500, "triples": 400 if tier == "quick" else 20000}))
+    out.append(("faults", {"jobset": 'keys', "arg": 't23a', "examples": 40 if tier == "quick" else 1500, "triples": 400 if tier == "quick" else 20000}))
     return out
 
 
@@ -608,6 +610,10 @@ def seed_history(ctx):
 
 
 def run_unit(ctx, name, **kw):
+    if name == "faults":
+        from . import faults
+        faults.run_set(ctx, **kw)
+        return
     if name == "seed-history":
         seed_history(ctx)
         return
@@ -672,6 +678,10 @@ def run_unit(ctx, name, **kw):
 
 
 def replay(ctx, case):
+    if case.get("kind") == "fault-history":
+        from . import faults
+        faults.replay(ctx, case)
+        return
     k = case["kind"]
     if k == "interleaved":
         from .purity import interleaved_pure
